@@ -15,11 +15,11 @@ package token
 //@ | && (forall j :: 0 <= j && j < p && q[j] == 10 ==> (exists k :: 1 <= k && k < len(ls) && ls[k] == j+1))
 
 //@ struct PosCache
-//@ props C17
+//@ props C17 C05
 //@ invariant lineIndex(self.lineStartPos, self.query)
 
 //@ func NewPosCache
-//@ props C17
+//@ props C17 C05
 //@ ensures result != nil && fresh(result)
 //@ ensures result.query == query
 //@ ensures lineIndex(result.lineStartPos, query)
@@ -29,7 +29,7 @@ package token
 //@ invariant lineIndexUpTo(cache.lineStartPos, query, iterpos())
 
 //@ func (*PosCache).LnCol
-//@ props C17
+//@ props C17 C05
 //@ requires c != nil
 //@ ensures (pos < 0 || int(pos) > len(c.query)) ==> result == InvalidLnColPos
 //@ ensures 0 <= pos && int(pos) <= len(c.query) ==> result.Pos == pos
